@@ -40,6 +40,7 @@ keys; the function map is an `FxHashMap`: any order, the driver prints it sorted
 -/
 import GrcovModel.Writers
 import GrcovModel.UPath
+import GrcovModel.Lcov
 namespace Grcov.Writers.Docs
 open Grcov AList Grcov.Writers Grcov.UPath
 
@@ -374,5 +375,43 @@ def HtmlSite.pageAt (s : HtmlSite) (d : List Name) : Option (List Int) :=
 
 def HtmlSite.pageFiles (s : HtmlSite) : List (List Name × List Int) :=
   s.pages.filter fun p => !s.isIndexFile p.1
+
+/-! ## the rows of a file page, for arbitrary source BYTES (html.rs 460-488)
+
+`f.read_to_end(&mut buf)`, `String::from_utf8_lossy(&buf)`, `.lines().enumerate()`: the source is
+decoded lossily (every maximal ill-formed byte sequence becomes U+FFFD: `Lcov.utf8Lossy`, nothing is
+cut off) and split the way `str::lines` does it: at every `\n`; a `\r` directly before that `\n` is
+dropped with it; a last line without `\n` counts (unless it is empty) and keeps everything,
+a trailing `\r` included; a lone `\r` does not split. -/
+
+def stripCR (l : List Nat) : List Nat := if l.getLast? = some 13 then l.dropLast else l
+
+/-- `cur`: the bytes of the line being read -/
+def linesAux (cur : List Nat) : List Nat → List (List Nat)
+  | [] => if cur = [] then [] else [cur]
+  | b :: bs => if b = 10 then stripCR cur :: linesAux [] bs else linesAux (cur ++ [b]) bs
+
+/-- `str::lines` -/
+def strLines (bs : List Nat) : List (List Nat) := linesAux [] bs
+
+/-- the lines `gen_html` sees -/
+def lossyLines (src : List Nat) : List (List Nat) := strLines (Lcov.utf8Lossy src)
+
+structure HtmlRow where
+  no : Nat
+  count : Int
+  text : List Nat
+deriving DecidableEq, Repr
+
+def rowsFrom (lines : List (Nat × Nat)) : Nat → List (List Nat) → List HtmlRow
+  | _, [] => []
+  | k, t :: ts => ⟨k, entry lines k, t⟩ :: rowsFrom lines (k + 1) ts
+
+/-- the `items` of the page: (line number, count or -1, text) for every line of the source -/
+def htmlRows (src : List Nat) (lines : List (Nat × Nat)) : List HtmlRow := rowsFrom lines 1 (lossyLines src)
+
+/-- the `src` parameter of `htmlEntry` from the source bytes -/
+def srcLineCount (bytes : Path → Option (List Nat)) : Path → Option Nat :=
+  fun p => (bytes p).map fun b => (lossyLines b).length
 
 end Grcov.Writers.Docs
